@@ -577,3 +577,76 @@ def rule_D(F, R):
                     if m and m.group(1).upper() in ("OFF", "0"):
                         R.violation("D5", F.owner(bp), "synchronous=OFF", "synchronous=OFF: an acknowledged commit may be lost", where(b, i))
     R.floor("D5", "journal_mode pragmas examined", n, 1)
+
+
+def rule_Q4(F, R):
+    R.begin("Q4", "sibling agreement of remove_operation: both storages compare the *decoded* last unsynchronised operation with the given one (Operation equality), and remove it only on equality")
+    n = 0
+    for im in F.impls:
+        tr = im.get("trait") or ""
+        if tr not in (TXN, WTXN) or "send_wrapper::wrapper" in im["self"] or "WrapperTxn" in im["self"]:
+            continue
+        for it in im["items"]:
+            if it["name"] != "remove_operation":
+                continue
+            b = F.real_body(it["path"])
+            if b is None:
+                continue
+            n += 1
+            c = cfg_of(b)
+            fl = flow_of(b)
+            eqs = [(i, t) for i, t in c.calls() if any(re.search(r"PartialEq::(eq|ne)$", x) for x in call_names(t)) and any("operation::Operation" in s_ for s_ in t.get("substs", []) + [t.get("resolved") or ""])]
+            removal = [(i, t) for i, t in c.calls() if any(re.search(r"Vec::<T, A>::pop$|Connection::execute$", x) for x in call_names(t))]
+            removal = [(i, t) for (i, t) in removal if any(x.endswith("::pop") for x in call_names(t)) or any("DELETE" in (sv or "") for a in t["args"] for sv in const_strs(fl.slice_operand(a, through_all_calls=False), F))]
+            if not eqs:
+                R.violation("Q4", it["path"], "no-decoded-comparison", "%s does not compare the stored operation with the given one as decoded Operation values (a textual/SQL comparison differs from the other storage for equal operations whose encodings differ)" % im["self"], where(b))
+                continue
+            okr = bool(removal)
+            for (ri, rt) in removal:
+                g = False
+                for (s, labs) in guards_of(c, ri):
+                    bo = bool_origin(fl, c.term(s)["o"])
+                    if bo and bo[0] in {k for k, _t in eqs}:
+                        isne = any(x.endswith("::ne") for x in call_names(bo[1]))
+                        te = switch_true_edges(c, s, bo[2])
+                        on_true = all(l in [e[2] for e in te] for l in labs)
+                        if on_true != isne:
+                            g = True
+                okr = okr and g
+            if okr:
+                R.ok("Q4", "%s: removal only when the decoded operations are equal" % im["self"], where(b))
+            else:
+                R.violation("Q4", it["path"], "removal-not-gated-by-equality", "%s removes the last operation without the decoded-equality test" % im["self"], where(b))
+    R.floor("Q4", "remove_operation implementations", n, 2)
+
+
+def rule_N3_overrides(F, R):
+    R.begin("N3o", "an implementation that overrides is_empty must still look only at *unsynchronised* operations, all tasks and the base version")
+    for im in F.impls:
+        tr = im.get("trait") or ""
+        if tr not in (TXN, WTXN):
+            continue
+        for it in im["items"]:
+            if it["name"] != "is_empty" or "send_wrapper::wrapper" in it["path"]:
+                continue
+            b = F.real_body(it["path"])
+            if b is None:
+                continue
+            c = cfg_of(b)
+            fl = flow_of(b)
+            names = {n_ for (_i, t) in c.calls() for n_ in call_names(t)}
+            sqls = []
+            for (_i, t) in c.calls():
+                for a in t["args"]:
+                    for sv in const_strs(fl.slice_operand(a, through_all_calls=False), F):
+                        if sv and re.search(r"\\b(SELECT|EXISTS)\\b", sv, re.I):
+                            sqls.append(sv)
+            uses_trait = any(n_.endswith("::unsynced_operations") or n_.endswith("::num_unsynced_operations") for n_ in names)
+            ops_sql = [s_ for s_ in sqls if re.search(r"\\boperations\\b", s_)]
+            bad_sql = [s_ for s_ in ops_sql if not re.search(r"NOT\\s+synced|synced\\s*=\\s*(0|false)", s_, re.I)]
+            if bad_sql:
+                R.violation("N3o", it["path"], "is_empty-counts-synced-operations", "%s overrides is_empty and looks at all rows of `operations` (%s): synchronised operations that are kept for history make a store look non-empty / differ from the other storage" % (im["self"], bad_sql[0][:80]), where(b))
+            elif not uses_trait and not ops_sql:
+                R.violation("N3o", it["path"], "is_empty-override-opaque", "%s overrides is_empty without consulting the unsynchronised operations" % im["self"], where(b))
+            else:
+                R.ok("N3o", "%s overrides is_empty consistently" % im["self"], where(b))
